@@ -83,6 +83,42 @@ def run(tier, seed, replay=None):
             if tracing == 0 and l in model and model[l] != obs[l]:
                 corr.append((l, obs[l], model[l]))
 
+    # thorough tier: the built hexsim EXECUTABLE under varied environment size (moves the stack, where the
+    # Processor object lives) and ASLR (on by default), several launches each
+    exe_level = {}
+    if tier == "thorough" and not replay:
+        import c14, subprocess, tempfile, shutil
+        tools = c14.build_tools()
+        wd = tempfile.mkdtemp(dir=os.path.join(C.BUILD, "work")) if os.path.isdir(os.path.join(C.BUILD, "work")) else tempfile.mkdtemp(dir=C.BUILD)
+        try:
+            nexe, diff = 0, []
+            for i in range(120):
+                line = G.run_case(C.Rng(r.next()), tracing=0, max_cycles=0, trunc="1", stdout_writes=True, read_unwritten=True)
+                f = line.split(" ")
+                path = os.path.join(wd, f"p{i}.bin")
+                open(path, "wb").write(bytes.fromhex(f[6]))
+                inp = bytes.fromhex(f[7]) if f[7] != "-" else b""
+                seen = set()
+                for pad in (0, 3000, 70000):
+                    for opts in ([], ["-t"], ["--max-cycles", "37"]):
+                        env = dict(os.environ, HEXPAD="x" * pad)
+                        for rep_i in range(2):
+                            pr = subprocess.run([os.path.join(tools, "hexsim"), path] + opts, input=inp, cwd=wd, env=env,
+                                                stdout=subprocess.PIPE, stderr=subprocess.PIPE, timeout=60)
+                            nexe += 1
+                            key = (tuple(opts), pr.returncode, pr.stdout if opts != ["-t"] else b"")
+                            seen.add(key)
+                per_opt = {}
+                for o, rc, out in seen:
+                    per_opt.setdefault(o, set()).add((rc, out))
+                if any(len(v) > 1 for v in per_opt.values()):
+                    diff.append({"kind": "executable-level host dependence", "inputs": [line[:400]],
+                                 "observations": [str({str(k): [x[0] for x in v] for k, v in per_opt.items()})]})
+            exe_level = {"executable_runs": nexe, "executable_differences": len(diff)}
+            viol.extend(diff)
+        finally:
+            shutil.rmtree(wd, ignore_errors=True)
+
     rep.coverage.update({
         "obligations": info.get("obligations", 0), "discharged": info.get("discharged", 0),
         "checker_cmd": "cd lean && lake build HexVerif.Properties.C12 && #print axioms",
@@ -97,6 +133,7 @@ def run(tier, seed, replay=None):
         "traces_validated_against_impl": len(model_in) - len(corr),
         "outcome_classes": dict(classes), "model_vs_impl_mismatches": len(corr),
         "property_violations": len(viol),
+        "executable_level": exe_level,
     })
     rep.assumptions += ["dirty host memory is represented by the bytes of the Processor object's storage before construction"]
     if viol:
